@@ -47,12 +47,16 @@ func cmpTruth(cmp string, rel int) bool {
 func c09(r *core.Run) {
 	r.Expl = "C09 (conditions follow Boolean logic): decides, exhaustively over the finite abstraction of each function (its control flow only compares bytes / byte strings and lengths, so behaviour depends only on the order type lt/eq/gt of each compared pair and on length equality): (1) for every (attribute, comparator) leaf closure built by generateCompareValue: it reads the attribute's own getter, its truth table equals the comparator's meaning ('=' all compared parts equal, '!=' the exact complement, '<' '>' '<=' '>=' on the single compared pair), address/network closures that compare a prefix are false ('=') / true ('!=') when the key's address length differs from the condition's (IP family guard); (2) no leaf closure and no Evaluate method stores through the key it is given (no assignment through an alias of a getter result, no mutating method, no copy into it); (3) andNode/orNode/notNode.Evaluate are exactly &&, ||, ! of their children; transformComparator is the complement table; negationNormalForm maps (and,¬)->or, (or,¬)->and, (not)->flip; (4) desugaring table src/dst/port/ipproto/protocol/host/net; (5) the prefix length parsed from text is bounded below and above before it is used as index or shift count. NOT decided: the truth of whole formulas on concrete keys, DNS resolution, the masking arithmetic of conditionBytesAndNetmask."
 	r.Floor = 60
-	r.Rules = append(r.Rules, "leaf-table: abstract truth-table enumeration of every comparison closure (P7)", "evaluation-pure (P8, syntactic alias tracking inside closures)", "connectives", "complement-table", "desugar-table", "parsed-int-bounds (P13b)")
+	r.Rules = append(r.Rules, "leaf-table: abstract truth-table enumeration of every comparison closure (P7)", "evaluation-pure (P8, syntactic alias tracking inside closures)", "pruning-soundness (P7: the version restriction derived per connective is implied by the condition)", "connectives", "complement-table", "desugar-table", "parsed-int-bounds (P13b)")
 	p := r.Prog("cgo")
 	c09Leaves(r, p)
 	c09Connectives(r, p)
 	c09Desugar(r, p)
 	ruleNetmaskBounds(r, p)
+	// the IP-version restriction a query derives from its condition decides which part of a block is evaluated at all:
+	// it must be implied by the condition for every connective (shared with C08), otherwise `a | b` evaluated over a
+	// database is no longer the union of `a` and `b`
+	c08Pruning(r, p)
 }
 
 func c09Leaves(r *core.Run, p *core.Prog) {
